@@ -290,6 +290,7 @@ class Crate:
         self.impls = j["impls"]
         self.statics = j["statics"]
         self.consts = j["consts"]
+        self.aliases = j.get("aliases", [])
         self.traits = j["traits"]
         self.macros = j["macros"]
 
